@@ -35,6 +35,18 @@ CHECKS = {
  "C09": dict(cat="fault_enumeration", tech="fault-sequence monitor: endings x will parameters x session histories, witness client at synctest quiescence, virtual-time keep-alive, chaos conn read faults",
    text="Every way a connection can end in the harness (7 endings incl. injected read errors and virtual-time keep-alive expiry) is crossed with will parameters and CleanSession histories; the witness must see this connection's will exactly once, or never after DISCONNECT.",
    note="trusted: synctest virtual time; teardown-finished hook events counted per connection", ref="3/C09"),
+ "C10": dict(cat="exploration", tech="session-model monitor over wire histories at synctest quiescence (CONNACK flag + probe publishes)",
+   text="Generated connect/subscribe/unsubscribe/end histories over three client ids; SessionPresent and the set of active subscriptions after every (re)connect are compared with a model of the state kept by CleanSession=0 connections, using probe publishes and the C01 delivery oracle.",
+   note="trusted: synctest quiescence, the 20-line session model", ref="3/C10"),
+ "C11": dict(cat="exploration", tech="first-packet product monitor at synctest quiescence with witness subscriber, retained-store and session probes; virtual-time connect timeout",
+   text="About 1600 first packets (all types, CONNECT field/flag product, malformed variants) under three authenticators, each followed by a tail of effective packets; answers and absence of any effect are checked at quiescence.",
+   note="refusal code set derived from the applicable reasons; policy-dependent ids may go either way", ref="3/C11"),
+ "C19": dict(cat="exploration", tech="virtual-time monitor (testing/synctest) of keep-alive expiry and PINGREQ/PINGRESP with a will witness",
+   text="All 84 combinations of K and activity pattern run in virtual time; drop time after the last byte is measured exactly (observed 1.2 K), active clients survive 50 intervals, expiry publishes the will once.",
+   note="virtual clock; a real-time spot check is not included", ref="3/C19"),
+ "C02": dict(cat="exploration", tech="per-packet wire oracle over enumerated and sampled QoS 1/2 scripts at synctest quiescence (acks on the publisher's wire, hand-overs on a QoS 2 subscriber's wire)",
+   text="All scripts up to length 5 over a 6-token alphabet and thousands of longer sampled ones; after every packet the exact acks and hand-overs are compared with the QoS 2 receiver state machine, incl. DUPs with different content and ring-wrapping filler.",
+   note="broker role; client role via scripted peer (see DESIGN)", ref="3/C02"),
 }
 PENDING = {}
 ALL = ["C%02d" % i for i in range(1, 21)]
